@@ -160,7 +160,7 @@ pub fn record(args: &[String]) -> i32 {
         std::fs::write(&file, &text).unwrap();
         // process-level I/O behaviour of `exec`
         if let Ok(prog) = rrss::frontend::parser::parse(&text) {
-            let obs = crate::exec::run(&prog, &crate::exec::RunCfg { input: vec![stdin.clone()], out_budget: None, in_fail_at: None });
+            let obs = crate::exec::run(&prog, &crate::exec::RunCfg { input: vec![stdin.clone()], out_budget: None, in_fail_at: None, no_events: true });
             let first_io_is_write = obs.log.iter().find_map(|e| match e {
                 crate::exec::Ev::Write(_) => Some(true),
                 crate::exec::Ev::Read(_) | crate::exec::Ev::ReadFail => Some(false),
